@@ -1252,7 +1252,7 @@ int main(int argc, char** argv) {
   // [0,F) [F,2F) [2F,4F) [4F,8F)...: capacity 2 -> boundaries 1,2,4,8; capacity 4 -> boundaries 2,4,8.
   //   quick   : depth 3, sizes {0,1,2,3} + {3,4,5} (boundary 4 -1/0/+1), insert counts and ilist lengths {0,1,2,3}.
   //   thorough: pass 1 depth 3, sizes {0,1,2,3} + {3,4,5} + {7,8,9} (boundaries 4 and 8), insert counts {0,1,2,3};
-  //             pass 2 depth 4, sizes / counts / ilist lengths {0,1,3} (sums reach 12, i.e. four buckets at cap 2).
+  //             pass 2 depth 4, sizes and ilist lengths {0,1,3}, insert counts {0,1} (sums reach 12: four buckets at cap 2).
   // (depth 4 over the quick alphabet would be ~10^9 evaluations: the last level is (#states ~1e5) x (~270 ops) x 24.)
   std::vector<Tier> passes;
   auto add_pass = [&](int depth, std::vector<int> a2, std::vector<int> a4, std::vector<int> s2, std::vector<int> s4,
@@ -1272,7 +1272,7 @@ int main(int argc, char** argv) {
              small_override.empty() ? args_override : small_override);
   } else if (tier == "thorough") {
     add_pass(3, A9, A9, {0, 1, 2, 3}, {0, 1, 2, 3});
-    add_pass(4, {0, 1, 3}, {0, 1, 3}, {0, 1, 3}, {0, 1, 3}, {0, 1, 3});
+    add_pass(4, {0, 1, 3}, {0, 1, 3}, {0, 1}, {0, 1}, {0, 1, 3});
   } else {
     add_pass(depth_override ? depth_override : 3, A6, A6, {0, 1, 2, 3}, {0, 1, 2, 3}, {0, 1, 2, 3});
   }
